@@ -187,7 +187,8 @@ def make_groups(r: random.Random, qa: list, sk0: dict) -> list[list[dict]]:
     comm = rw.enc_attr(0xC0, 8, struct.pack('!HHHH', 65000, 1, 65000, 666))
     duals = [dual_aspath(r) for _ in range(3)]
     # (1) AS_PATH valid under both widths (always taken: the design's suspect)
-    groups.append([upd('dual', base_block(duals[0])), upd('dual', base_block(duals[1], med + comm)), upd('dual-withdraw', base_block(duals[0]), nlri='v4+withdraw'), upd('dual', base_block(duals[2], comm))])
+    # (the second item shares its attribute bytes with the first and also withdraws a route: same cached attribute set, another rendering)
+    groups.append([upd('dual', base_block(duals[0])), upd('dual-withdraw', base_block(duals[0]), nlri='v4+withdraw'), upd('dual', base_block(duals[1], med + comm)), upd('dual', base_block(duals[2], comm))])
     # (2) AGGREGATOR of each width (valid on one kind of session only), empty AS_PATH
     groups.append(
         [
@@ -332,15 +333,19 @@ def make_universe(r: random.Random, qa: list, shard: int, nsessions: int, nbodie
         order.remove(2)
         order.insert((shard * 2) % (len(order) + 1), 2)  # the AIGP group meets the sessions that differ in the AIGP option
     items = list(groups[0][:per_group]) + [groups[-1][shard % len(groups[-1])]]
+    gid = {id(x): 0 for x in items[:-1]}
+    gid[id(items[-1])] = len(groups) - 1
     g = shard * 2
     while len(items) < nbodies:
         grp = groups[order[g % len(order)]]
-        items += grp[: min(per_group, nbodies - len(items))]
+        for x in grp[: min(per_group, nbodies - len(items))]:
+            items.append(x)
+            gid[id(x)] = order[g % len(order)]
         g += 1
     uniques = []
     for item in items:
         for kind in chosen:
-            uniques.append({'k': kind, 't': item['type'], 'b': materialise(item, KINDS[kind]).hex(), 'tag': item['tag'], 'item': id(item)})
+            uniques.append({'k': kind, 't': item['type'], 'b': materialise(item, KINDS[kind]).hex(), 'tag': item['tag'], 'item': id(item), 'group': gid[id(item)]})
     return {'sessions': chosen, 'uniques': uniques, 'nitems': len(items)}
 
 
@@ -349,6 +354,7 @@ def make_sequence(r: random.Random, uni: dict, length: int) -> list:
     for u in uni['uniques']:
         by_item.setdefault(u['item'], {})[u['k']] = u
     items = list(by_item)
+    group_of = {u['item']: u.get('group') for u in uni['uniques']}
     chosen = uni['sessions']
     steps = []
     prev_item = prev_kind = None
@@ -362,6 +368,11 @@ def make_sequence(r: random.Random, uni: dict, length: int) -> list:
         item = prev_item if prev_item is not None and r.random() < 0.5 else r.choice(items)
         if prev_item is not None and r.random() < 0.12:
             item, kind = prev_item, prev_kind  # the very same message again on the very same session, back to back
+        elif prev_item is not None and r.random() < 0.15:
+            # a RELATED message (same group: same attribute bytes with other routes, one attribute more, ...) on the same session
+            sibs = [i for i in items if i != prev_item and group_of[i] == group_of[prev_item]]
+            if sibs:
+                item, kind = r.choice(sibs), prev_kind
         u = by_item[item][kind]
         steps.append({'k': u['k'], 't': u['t'], 'b': u['b'], 'tag': u['tag']})
         prev_item, prev_kind = item, kind
@@ -445,6 +456,10 @@ def render(msg, mtype: int, nb, neg, E: Encoders) -> dict:
     if mtype == 2:
         eor = bool(getattr(msg, 'IS_EOR', False))
         coll = msg if eor else msg.data
+        # the API encoders first, exactly as production calls them on a freshly decoded message: the harness's own look at the
+        # attribute set (str(), json() below) fills the strings the collection memoises on itself and must not come before
+        p['json'] = [strip_envelope(safe(E.json6.update, nb, 'receive', coll, b'', b'', neg)), strip_envelope(safe(E.json4.update, nb, 'receive', coll, b'', b'', neg))]
+        p['text'] = [safe(E.text4.update, nb, 'receive', coll, b'', b'', neg), safe(str, msg)]
         if eor:
             for n in coll.nlris:
                 p['routes'].append(['eor', safe(lambda n=n: f'{n.afi} {n.safi}'), safe(str, n)])
@@ -462,8 +477,6 @@ def render(msg, mtype: int, nb, neg, E: Encoders) -> dict:
                 p['attributes'].append([int(code), type(attr).__name__, safe(lambda attr=attr: int(attr.FLAG)), safe(str, attr)])
         except BaseException as e:  # noqa
             p['attributes'].append(f'!raise {type(e).__name__}')
-        p['json'] = [strip_envelope(safe(E.json6.update, nb, 'receive', coll, b'', b'', neg)), strip_envelope(safe(E.json4.update, nb, 'receive', coll, b'', b'', neg))]
-        p['text'] = [safe(E.text4.update, nb, 'receive', coll, b'', b'', neg), safe(str, msg)]
         return p
     p['text'].append(safe(str, msg))
     if mtype == 1:
